@@ -271,7 +271,6 @@ pub fn gen_strict_pairs(a: &Args, out: &mut Out, run0: u64, npairs: u64, fullini
                         m.set_pc(o, 0x3000);
                         if !ignp { m.set_psr(o, 0x0002); }
                         m.keys(o, &[b'k', b'q']);
-                        m.write_mem(o, 0xFE00, Word::new_init(0x4000), MemAccessCtx::omnipotent());
                     }
                     for _ in 0..3 {
                         let xa = ma.step(&mut oa, false, false);
